@@ -184,8 +184,28 @@ func Gen(frames []Frame) (wire []byte, ends []int) {
 	return wire, ends
 }
 
-// MaskRef is the byte-wise masking of RFC 6455 §5.3: b[i] ^= key[(pos+i) mod 4]; returns the next position mod 4.
+// MaskRef is the masking of RFC 6455 §5.3: b[i] ^= key[(pos+i) mod 4]; returns the next position mod 4.
+// (Eight bytes per step where possible — the same function, only fewer instrumented accesses under -race.)
 func MaskRef(key [4]byte, pos int, b []byte) int {
+	i := 0
+	if len(b) >= 32 {
+		var k8 [8]byte
+		for j := range k8 {
+			k8[j] = key[(pos+j)&3]
+		}
+		kw := binary.LittleEndian.Uint64(k8[:])
+		for ; i+8 <= len(b); i += 8 {
+			binary.LittleEndian.PutUint64(b[i:], binary.LittleEndian.Uint64(b[i:])^kw)
+		}
+	}
+	for ; i < len(b); i++ {
+		b[i] ^= key[(pos+i)&3]
+	}
+	return (pos + len(b)) & 3
+}
+
+// MaskByteWise is the literal byte-at-a-time definition (used to cross-check MaskRef and the library's masking).
+func MaskByteWise(key [4]byte, pos int, b []byte) int {
 	for i := range b {
 		b[i] ^= key[(pos+i)&3]
 	}
